@@ -25,17 +25,17 @@ func init() {
 // Exemptions for R06.1: configuration read in the tool-input region that need
 // not be part of garble's build hash.
 var configExempt = map[string]string{
-	"flag:debug":               "only enables log output",
-	"flag:debugdir":            "side output only: where copies of sources are written; never part of tool input",
-	"env:GARBLE_SHARED":        "location of the shared temp dir; trimmed from recorded paths (-trimpath)",
-	"shared:CacheDir":          "location of garble's cache",
-	"shared:ListedPackages":    "go list facts; their inputs (sources, tags, GOOS/GOARCH) are part of cmd/go's own action IDs, which GarbleActionID wraps",
-	"shared:GoEnv.GOARCH":      "target architecture: part of cmd/go's action IDs",
-	"shared:GoEnv.GOOS":        "target OS: part of cmd/go's action IDs",
-	"shared:GoEnv.GOROOT":      "toolchain location: the toolchain's identity is in the tool version string garble extends",
-	"shared:GoEnv.GOVERSION":   "toolchain version: in the tool version string garble extends, and in the linker stamp (R06.5)",
-	"shared:GoCmd":             "path of the go command",
-	"env:TOOLEXEC_IMPORTPATH":  "names the package being built; set by cmd/go per action",
+	"flag:debug":                "only enables log output",
+	"flag:debugdir":             "side output only: where copies of sources are written; never part of tool input",
+	"env:GARBLE_SHARED":         "location of the shared temp dir; trimmed from recorded paths (-trimpath)",
+	"shared:CacheDir":           "location of garble's cache",
+	"shared:ListedPackages":     "go list facts; their inputs (sources, tags, GOOS/GOARCH) are part of cmd/go's own action IDs, which GarbleActionID wraps",
+	"shared:GoEnv.GOARCH":       "target architecture: part of cmd/go's action IDs",
+	"shared:GoEnv.GOOS":         "target OS: part of cmd/go's action IDs",
+	"shared:GoEnv.GOROOT":       "toolchain location: the toolchain's identity is in the tool version string garble extends",
+	"shared:GoEnv.GOVERSION":    "toolchain version: in the tool version string garble extends, and in the linker stamp (R06.5)",
+	"shared:GoCmd":              "path of the go command",
+	"env:TOOLEXEC_IMPORTPATH":   "names the package being built; set by cmd/go per action",
 	"env:GARBLE_TEST_GOVERSION": "test hook for the version check",
 }
 
